@@ -459,6 +459,17 @@ def _resolve_field_reference(field_reference, source_file_name, errors, ir):
     previous_field = ir_util.find_object_or_none(field_reference.path[0], ir)
     previous_reference = field_reference.path[0]
     for ref in field_reference.path[1:]:
+        if not isinstance(previous_field, ir_data.Field):
+            # Runtime parameters (and anything else that is not a field) have no
+            # members.
+            errors.append(
+                noncomposite_subfield_error(
+                    source_file_name,
+                    previous_reference.source_location,
+                    previous_reference.source_name[0].text,
+                )
+            )
+            return
         while ir_util.field_is_virtual(previous_field):
             if previous_field.read_transform.which_expression == "field_reference":
                 # Pass a separate error list into the recursive _resolve_field_reference
@@ -483,6 +494,15 @@ def _resolve_field_reference(field_reference, source_file_name, errors, ir):
                 previous_field = ir_util.find_object(
                     previous_field.read_transform.field_reference.path[-1], ir
                 )
+                if not isinstance(previous_field, ir_data.Field):
+                    errors.append(
+                        noncomposite_subfield_error(
+                            source_file_name,
+                            previous_reference.source_location,
+                            previous_reference.source_name[0].text,
+                        )
+                    )
+                    return
             else:
                 errors.append(
                     noncomposite_subfield_error(
